@@ -12,7 +12,6 @@ import (
 
 	"github.com/massnetorg/mass-core/poc"
 	"github.com/massnetorg/mass-core/poc/pocutil"
-	"github.com/massnetorg/mass-core/pocec"
 	"github.com/massnetorg/mass-core/wire"
 )
 
@@ -459,6 +458,9 @@ func judge(in *judgeInput, res *scenResult) {
 				fail("eligible-slot-missed", a, map[string]interface{}{"round": ri, "gave_up_waiting_at": tstr(st.gaveUpAt), "submissions_for_round": n, "wanted": want, "keeper_queries_for_round": asked})
 			} else {
 				res.count("due_blocks_arrived", 1)
+				if r.P.TClass == "boundary" && st.exp.J == r.P.K && in.subs[perRound[ri][0]].Timestamp.Equal(st.exp.TS) {
+					res.count("boundary_slots_with_best_quality_equal_to_target_passed_over", 1)
+				}
 			}
 			res.count("clause3_due_block_presence_checked", 1)
 		default:
@@ -473,5 +475,3 @@ func judge(in *judgeInput, res *scenResult) {
 		}
 	}
 }
-
-var _ = pocec.S256
